@@ -6,4 +6,4 @@ CONSTANTS
   Predict = FALSE
   MaxMut = 1
   Sugars = {"go", "full"}
-INVARIANTS Export Terminates StoreOK Predicted
+INVARIANTS Export Terminates StoreOK Predicted WellTypedInv
